@@ -68,6 +68,10 @@ func runC02(c *Ctx) {
 	} else {
 		r.Fail("X15", "v1:priority.Simple", "-", "UNRESOLVED-ANCHOR: v1 Simple not found")
 	}
+	// X16: the simplified disciplines serve the configured inputs, all of them
+	r.Doc("X16", "simplified disciplines: the inner discipline is given the caller's Inputs as configured", 2)
+	checkInputsForwarded(c, c.V1, "X16")
+	checkInputsForwarded(c, c.V2, "X16")
 	// X13: the handlers exist
 	r.Doc("X13", "simplified disciplines: the handler goroutines are started on every successful construction", 2)
 	checkHandlersStarted(c, c.V1, "X13")
@@ -543,6 +547,12 @@ func c02registration(c *Ctx, p *Prog) {
 				n++
 				key := fmt.Sprintf("%s#store.%d", p.FnKey(fn), n)
 				val := p.Sym(mu.Value)
+				// (the record may be built by a pure constructor: common.NewInput(channel))
+				if val.Op == "call" {
+					if x := p.SymX(mu.Value); x != nil && x.Op == "struct" {
+						val = x
+					}
+				}
 				// preserved-channel form: base = table[key]
 				if val.Op == "struct" && len(val.Keys) > 0 && val.Keys[0] == "<base>" {
 					base := val.Args[0]
